@@ -275,7 +275,7 @@ theorem tie_invTmerc (c : TmercC α) (x y : α) :
           let x := Gen.tmerc_inverse_x_1 s x
           let y := Gen.tmerc_inverse_y_1 s y
           let con := Gen.tmerc_inverse_con_2 s c.ml0 y
-          let phi ← tmercPhiLoop c con 7 (Gen.tmerc_inverse_phi_1 con)
+          let phi ← tmercPhiLoop c con (Gen.tmerc_inverse_natmax_iter_1 + 1) (Gen.tmerc_inverse_phi_1 con)
           if lt (abs phi) halfPi then
             let sin_phi := Gen.tmerc_inverse_sin_phi_1 phi
             let cos_phi := Gen.tmerc_inverse_cos_phi_1 phi
